@@ -89,6 +89,11 @@ proc_line(struct prln_ctx_s ctx, char *line, size_t llen)
 		/* find first occurrence then */
 		d = dt_io_find_strpdt2(
 			line, llen, ctx.ndl, &sp, &tp, ctx.fromz);
+		/* military midnight: the key is built in two pieces, make
+		 * both speak of the same day (00:00:00 of the next one) */
+		if (dt_sandwich_p(d) && d.t.hms.h == 24U) {
+			d = dt_milfup(d);
+		}
 		/* the key goes first, the line may contain anything then */
 		/* check if line matches */
 		if (!dt_unk_p(d)) {
